@@ -101,15 +101,15 @@ class LoaderTap:
         tap = self
         o_init, o_find, o_prep, o_write = self._orig
 
-        def init(self_):
-            o_init(self_)
+        def init(self_, *a_, **kw_):
+            o_init(self_, *a_, **kw_)
             tap.hits["GHEManager.__init__"] += 1
             tap.instances.append(self_)
 
-        def find_design(self_, throw=True):
+        def find_design(self_, *a_, **kw_):
             tap.hits["find_design"] += 1
             if run_design:
-                return o_find(self_, throw=throw)
+                return o_find(self_, *a_, **kw_)
             return 0
 
         def prepare_results(self_, *a, **kw):
